@@ -10,8 +10,8 @@ def flat_cfgs(tier):
 
 def small_cfgs(tier):
     c = [S.SetCfg('small', 3, 'std', cmp='less'), S.SetCfg('small', 2, 'flat', cmp='mod'), S.SetCfg('small', 4, 'std', cmp='greater', cat='ntr'),
-         S.SetCfg('small', 1, 'flat', cmp='stateful')]
+         S.SetCfg('small', 1, 'flat', cmp='stateful'), S.SetCfg('small', 2, 'std', cmp='stateful')]
     if tier == 'thorough':
-        c += [S.SetCfg('small', 2, 'std', cmp='stateful'), S.SetCfg('small', 5, 'flat', cmp='less', cat='ntr'),
+        c += [S.SetCfg('small', 4, 'flat', cmp='stateful'), S.SetCfg('small', 5, 'flat', cmp='less', cat='ntr'),
               S.SetCfg('small', 3, 'flat', cmp='greater'), S.SetCfg('small', 1, 'std', cmp='mod')]
     return c
